@@ -133,6 +133,28 @@ def _compute_hmac_bytes(hmac_key: bytes, cache_key: str, raw_bytes: bytes) -> st
     return hmac.new(hmac_key, msg, hashlib.sha256).hexdigest()
 
 
+_UNTRUSTED_ROW = object()
+
+
+def _raw_only_disk(diskcache: Any) -> type:
+    """Disk that never unpickles a stored value on fetch.
+
+    DiskCache only ever writes bytes and str rows. A row in pickle mode was
+    written by someone else; diskcache would unpickle it inside ``get()``,
+    i.e. before the HMAC check. Hand back a marker instead, which ``get()``
+    treats like any other malformed entry (evict, miss).
+    """
+    from diskcache.core import MODE_PICKLE
+
+    class _RawOnlyDisk(diskcache.Disk):
+        def fetch(self, mode: int, filename: Any, value: Any, read: bool) -> Any:
+            if mode == MODE_PICKLE:
+                return _UNTRUSTED_ROW
+            return super().fetch(mode, filename, value, read)
+
+    return _RawOnlyDisk
+
+
 class DiskCache:
     """Persistent disk-based cache using diskcache.
 
@@ -164,6 +186,7 @@ class DiskCache:
             raise ImportError("diskcache is required for DiskCache. Install it with: pip install 'hypergraph[cache]'") from None
 
         expanded = os.path.expanduser(cache_dir)
+        kwargs.setdefault("disk", _raw_only_disk(diskcache))
         self._cache = diskcache.Cache(expanded, **kwargs)
         self._hmac_key = _load_or_create_hmac_key(expanded)
 
